@@ -314,6 +314,11 @@ def canon_default(l):
     return l.rstrip()
 
 
+def canon_timing(l):
+    """sessions tainted by harness timing are compared only up to the tainted line"""
+    return canon_default(l)
+
+
 def run_pair(suite, ops, timeout=600):
     inp = "\n".join(ops) + "\n"
     try:
@@ -344,6 +349,8 @@ def first_mismatch(suite, ops, canon):
     for i, o in enumerate(ops):
         a = canon(impl[i]) if i < len(impl) else "<no output: harness died>"
         b = canon(model[i]) if i < len(model) else "<no output: driver died>"
+        if a == "TIMING":
+            return None
         if a != b:
             return i, a, b
     return None
@@ -395,6 +402,7 @@ def differential(ctx, suite, sessions, seed, canon=canon_default, nontrivial=Non
     nontriv = 0
     kinds = collections.Counter()
     outs = collections.Counter()
+    timing_lines = [0]
     for s in ses:
         mism = None
         o_impl = []
@@ -405,6 +413,9 @@ def differential(ctx, suite, sessions, seed, canon=canon_default, nontrivial=Non
             o_impl.append(a)
             kinds[" ".join(o.split()[:2])] += 1
             outs[a if len(a) < 24 and not any(ch.isdigit() for ch in a) else "<value>"] += 1
+            if a == "TIMING":
+                timing_lines[0] += 1
+                break
             if a != b and mism is None:
                 mism = (j, o, a, b)
         pos += len(s)
@@ -423,7 +434,8 @@ def differential(ctx, suite, sessions, seed, canon=canon_default, nontrivial=Non
                 rule=f"{suite}: seeded random op sessions on the real code vs the Lean driver, compared line by line; "
                      f"distinct = distinct session texts, non-trivial = per-suite rule (see DESIGN.md)")
     ctx.extra.setdefault("distribution", {})[suite] = dict(sessions=len(ses), corpus_files=ncorp, ops=len(ops_all),
-                                                          op_kinds=dict(kinds.most_common(40)), outputs=dict(outs.most_common(25)))
+                                                          op_kinds=dict(kinds.most_common(40)), outputs=dict(outs.most_common(25)),
+                                                          sessions_cut_short_by_harness_timing=timing_lines[0])
     ctx.oblige(f"tie:differential {suite} ({len(ses)} sessions, {len(ops_all)} ops): implementation = model", not bad,
                f"{len(bad)} disagreeing sessions" if bad else "")
     if bad:
@@ -434,8 +446,45 @@ def differential(ctx, suite, sessions, seed, canon=canon_default, nontrivial=Non
         ctx.pending_disagreements = getattr(ctx, "pending_disagreements", []) + [
             dict(kind="differential", suite=suite, ops=small, impl=impl2[:len(small)], model=model2[:len(small)],
                  first_mismatch=dict(index=mm[0], op=small[mm[0]], impl=mm[1], model=mm[2]) if mm else None,
-                 original_len=len(s), n_disagreeing_sessions=len(bad))]
+                 original_len=len(s), n_disagreeing_sessions=len(bad),
+                 original_first_mismatches=[dict(op=m[1], impl=m[2], model=m[3], session_head=ss[:6]) for ss, m in bad[:5]])]
+    ctx.last_run = dict(suite=suite, ops=ops_all, impl=[canon(x) for x in impl[:len(ops_all)]])
     return len(bad)
+
+
+def spec_monitor(ctx, mode, sig_prefix, what):
+    """run the Lean specification monitor (driver mode `mode`) over the history the IMPLEMENTATION produced in
+    the last differential run: the properties themselves, judged on the real code, independent of the model"""
+    lr = getattr(ctx, "last_run", None)
+    if not lr:
+        return
+    ops, impl = lr["ops"], lr["impl"]
+    lines = [f"{o} | {impl[i] if i < len(impl) else 'DEAD'}" for i, o in enumerate(ops)]
+    try:
+        rc, out = sh([DRIVER, mode], inp="\n".join(lines) + "\n", timeout=600)
+    except subprocess.TimeoutExpired:
+        ctx.oblige(f"spec monitor {mode} finished", False, "timeout")
+        return
+    res = out.split("\n")
+    nviol = 0
+    nok = 0
+    start = 0
+    for i, o in enumerate(ops):
+        if o.split()[:1] == ["reset"]:
+            start = i
+        r = res[i] if i < len(res) else ""
+        if r == "ok":
+            nok += 1
+        if r == "VIOLATION":
+            nviol += 1
+            if nviol <= 2:
+                ses = lines[start:i + 1]
+                ctx.violation(f"{sig_prefix}:{mode}", f"{what}: the history observed on the implementation is rejected by the specification monitor at `{lines[i]}`",
+                              dict(kind="spec-monitor", mode=mode, suite=lr["suite"], history=ses, ops=ops[start:i + 1]), concrete=True)
+        if r == "unparsed":
+            ctx.oblige(f"spec monitor {mode}: every history line parses", False, lines[i])
+    ctx.extra.setdefault("spec_monitor", {})[mode] = dict(history_lines_accepted=nok, violations=nviol)
+    ctx.add_cov(traces=0, rule=f"{mode}: the Lean specification monitor run over every implementation history of the suite")
 
 
 # ----------------------------------------------------------------------------- monitors
@@ -464,6 +513,8 @@ def monitor(ctx, name, timeout=1800, args=()):
     if rep.get("stats"):
         ctx.extra.setdefault("monitor_stats", {})[name] = rep["stats"]
     for v in rep.get("violations") or []:
+        if v.get("property") and v["property"] != ctx.prop:
+            continue   # judged by that property's own check
         ctx.violation(v["sig"], v["what"], dict(kind="monitor", monitor=name, seed=ctx.seed, detail=v.get("replay")), concrete=True)
     return rep
 
@@ -507,8 +558,10 @@ def finish(ctx, level="proof", checker_cmd=None):
     elif failed and concrete:
         # attach the broken obligations to the first concrete replay for context
         pass
-    for k in ctx.known_seen:
-        print(f"KNOWN-FINDING: property={prop} sig={k['sig']} {k['what']}")
+    seen_sigs = {k["sig"] for k in ctx.known_seen}
+    for k in ctx.known:
+        tag = "reproduced in this run" if k["sig"] in seen_sigs else "listed, not reproduced by this run's sampling"
+        print(f"KNOWN-FINDING: property={prop} sig={k['sig']} ({tag}) {k['what']}")
     nobl = len(ctx.obligations)
     ndis = len([o for o in ctx.obligations if o[1]])
     cov = dict(ctx.cov)
